@@ -143,6 +143,31 @@ def run(ctx):
                 continue
             judge_text(ctx, im, text, kind, detail)
     ctx.sample(dict(layer="single", mutation=kind, text=text[:300]))
+    # an evaluator that holds a valid text is recompiled to an invalid text made of the same non-blank characters (a
+    # newline inside a string literal, a // comment that swallows the rest): it must be rejected just the same
+    base = 'def rc {\n splitters: u // note\n return "grp A" weighted 1, "grp B" weighted 2\n}\n'
+    siblings = [base.replace("// note\n", "// note "), base.replace('"grp A"', '"grp\nA"'), base.replace("\n}", " } }"),
+                base.replace(" weighted 1", " weighted\t1 ;"), " ".join(base.split())]
+    if ctx.shard == 0:
+        for sib in siblings:
+            st = ref_parse(sib)
+            c0 = im.construct(base)
+            ctx.evaluated()
+            if st[0] != "reject" or c0[0] != "ok":
+                ctx.count("harness/sibling-not-rejected-by-reference" if st[0] != "reject" else "baseline-does-not-compile (C07's business)")
+                continue
+            ctx.nontrivial("recompile-sibling", sib)
+            try:
+                import contextlib
+                import io
+
+                with contextlib.redirect_stdout(io.StringIO()), contextlib.redirect_stderr(io.StringIO()):
+                    c0[1].recompile(sib)
+                ctx.violation("accepted-invalid-text", dict(text=sib, mutation="recompile-to-invalid-sibling", detail=dict(first=base),
+                                                            reference_reason=st[1], what=["recompile(text) returned"]),
+                              mechanism="C06/invalid-recompile-accepted")
+            except Exception:  # noqa: BLE001
+                ctx.count("rejected-by-reference/recompile-to-invalid-sibling")
     # two-step cases: a rejected text first, then a text that is only "valid" for a lexer / parser that kept state from
     # the failure (comment mode, an open string, parser stack)
     valid = 'def b { splitters: u return "x" weighted 1, "y" weighted 1 }'
